@@ -239,6 +239,10 @@ func workerEnv(id, tier string, seed uint64, shard, nshards int, out string, ope
 		"VERIF_PROP="+id, "VERIF_TIER="+tier, "VERIF_SEED="+strconv.FormatUint(seed, 10),
 		"VERIF_SHARD="+strconv.Itoa(shard), "VERIF_NSHARDS="+strconv.Itoa(nshards), "VERIF_OUT="+out,
 		"VERIF_OPEN="+strings.Join(open, ","), "VERIF_ROOT="+verifRoot)
+	if props[id].Race {
+		// a race report ends the worker at once so that the journal names the case
+		env = append(env, "GORACE=halt_on_error=1 exitcode=66")
+	}
 	return append(env, extra...)
 }
 
@@ -590,6 +594,10 @@ func check(id, tier string) int {
 		sub := filepath.Join(work, fmt.Sprintf("confirm-%d", s))
 		os.MkdirAll(sub, 0o755)
 		okRun, r2 := replayOne(bin, id, tier, cand, sub, open, cfg.Race)
+		for try := 0; okRun && cfg.Race && try < 20; try++ {
+			// a schedule-dependent failure may need several attempts to show again
+			okRun, r2 = replayOne(bin, id, tier, cand, sub, open, cfg.Race)
+		}
 		if okRun {
 			what := fmt.Sprintf("shard %d died (status %d) but its journaled case passes alone", s, res.exit)
 			inconclusive = append(inconclusive, what)
